@@ -116,6 +116,34 @@ theorem C02_segmentation {μ : Type} (obf : Bool) (decode : Bytes → Option μ)
     (h : segs₁.flatten = segs₂.flatten) :
     reader obf decode segs₁.flatten = reader obf decode segs₂.flatten := by rw [h]
 
+/-- **A bad first frame closes that connection only.** Whatever the accepted connection sends first
+(nothing, a truncated frame, an undecodable or unexpected frame, an unknown pierce ticket), it is
+either established or closed, and in both cases every *other* registered connection stays
+registered; the connection itself stays registered iff it was established. -/
+theorem C02_accept_isolated (obf : Bool) (decode : Bytes → Option InitKind) (tickets reg : List Nat)
+    (c : Nat) (s : Bytes) (hc : c ∉ reg) :
+    let out := acceptOutcome obf decode tickets s
+    (∀ d, d ≠ c → (d ∈ acceptRegistry reg c out ↔ d ∈ reg)) ∧
+    (c ∈ acceptRegistry reg c out ↔ out = .established) := by
+  intro out
+  cases hout : out with
+  | established =>
+    simp only [acceptRegistry]
+    constructor
+    · intro d hd; simp [hd]
+    · simp
+  | closed why =>
+    simp only [acceptRegistry]
+    constructor
+    · intro d hd; simp [List.mem_filter, hd]
+    · simp [List.mem_filter]
+
+/-- an undecodable first frame is never established -/
+theorem C02_accept_bad_frame_closed (obf : Bool) (decode : Bytes → Option InitKind) (tickets : List Nat)
+    (s f : Bytes) (hf : firstRead obf s = .frame f) (hd : decode f = none) :
+    acceptOutcome obf decode tickets s = .closed .readError := by
+  simp [acceptOutcome, hf, hd]
+
 /-! Non-vacuity -/
 example : GoodFrames [([1, 2, 3, 4], [9, 9]), ([5, 6, 7, 8], [])] := by
   intro kb h; simp at h; rcases h with rfl | rfl <;> simp
